@@ -18,7 +18,7 @@ RULE = ('Byte contents (empty, arbitrary binary incl. NUL / 0x80-0xFF / newlines
         'environment variable set to a different value - the explicit limit counts) x path '
         'passed positionally or by keyword x instance and static interceptions x input and output file data handlers x '
         'cassette type (in-memory, file, S3, async) x replay path empty or already holding a file of the same / another '
-        'size, always through a full program: record -> cassette -> fetch -> '
+        'size; also a kernel-generated file (/proc/version, reported size 0) well within the limit; always through a full program: record -> cassette -> fetch -> '
         'replay. Oracle: the file found at the path named by the REPLAYED call holds the recorded bytes (<= limit) or '
         'the documented placeholder (> limit); restore_output_from_recording of the recorded and of the replayed output '
         'gives a holder with those bytes / the placeholder and the recorded path, and to_file writes them; above the '
@@ -28,6 +28,7 @@ ASSUMPTIONS = ['size limit semantics: strictly above the limit is not recorded (
                'environment variable limit given as a whole number of MB (fractional values: rounding is not specified)']
 
 ENV = 'PLAYBACK_INTERCEPTED_FILE_SIZE_LIMIT'
+PROC_FILE = '/proc/version'
 
 
 def check_file_case(ctx, case):
@@ -39,6 +40,14 @@ def check_file_case(ctx, case):
     placeholder = FileInterception.ABOVE_LIMIT_CONTENT
     content = binascii.unhexlify(case['content']) if 'content' in case else \
         (bytes(bytearray((i * 7 + 3) % 256 for i in range(251))) * (case['size'] // 251 + 1))[:case['size']]
+    procfs = case.get('source') == 'procfs'
+    if procfs:
+        # a kernel-generated file: its reported size (0) says nothing about its content
+        if not os.path.exists(PROC_FILE):
+            ctx.exclude('no %s in this environment' % PROC_FILE)
+            return
+        with open(PROC_FILE, 'rb') as f:
+            content = f.read()
     kw, static = case['kw'], case['static']
     old_env = os.environ.get(ENV)
     if case.get('env_limit') is not None:
@@ -69,6 +78,9 @@ def check_file_case(ctx, case):
 
         def fetch_body(path):
             state['bodies'].append(('fetch', state['world']))
+            if procfs:
+                os.symlink(PROC_FILE, path)
+                return path
             with open(path, 'wb') as f:
                 f.write(content)
             return path
@@ -193,7 +205,7 @@ def check_file_case(ctx, case):
         'over-limit' if over else 'within-limit', 'explicit+env' if case.get('env_also') is not None else
         'env-limit' if case.get('env_limit') is not None else 'default-limit' if case.get('default_limit') else
         'explicit-limit', 'size:>1MB' if len(content) > 2 ** 20 else 'size:<=1MB',
-        'size:near-limit' if near else 'size:other', 'preexisting:%s' % case.get('preexisting'), 'empty' if not content else 'nonempty'))
+        'size:near-limit' if near else 'size:other', 'source:procfs' if procfs else 'source:regular', 'preexisting:%s' % case.get('preexisting'), 'empty' if not content else 'nonempty'))
 
 
 PLACEHOLDER_HEX = binascii.hexlify(b'above interception limit').decode()
@@ -202,10 +214,15 @@ PLACEHOLDER_HEX = binascii.hexlify(b'above interception limit').decode()
 @st.composite
 def cases(draw):
     limit = draw(st.integers(0, 48))
-    kind = draw(st.sampled_from(['binary', 'binary', 'boundary', 'boundary', 'placeholder', 'text', 'env0']))
+    kind = draw(st.sampled_from(['binary', 'binary', 'boundary', 'boundary', 'placeholder', 'text', 'env0', 'procfs']))
     case = {'kw': draw(st.booleans()), 'static': draw(st.booleans()),
             'cassette': draw(st.sampled_from(['memory', 'memory', 'file', 's3', 'async']))}
-    if kind == 'env0':
+    if kind == 'procfs':
+        # within the limit whatever size is looked at (reported 0 bytes, content well under 1 MB)
+        case['source'] = 'procfs'
+        case.update(draw(st.sampled_from([{'default_limit': True}, {'env_limit': 1}, {'limit_bytes': 2 ** 20}])))
+        content = b''
+    elif kind == 'env0':
         case['env_limit'] = draw(st.sampled_from([0, '0', '0.0']))
         content = draw(st.binary(max_size=2))
     elif kind == 'binary':
